@@ -56,7 +56,7 @@ def init_sizes(run, cfg):
     # depth-0 dump: run TLC with MaxOps=0 constraint via a derived cfg
     src = open(os.path.join(SPEC, cfg)).read()
     import re
-    tmpcfg = "Pack_init_tmp_%s.cfg" % run.tier
+    tmpcfg = "Pack_init_tmp_%s%s_%d.cfg" % (run.tier, run.scratch, os.getpid())
     open(os.path.join(SPEC, tmpcfg), "w").write(re.sub(r"MaxOps = \d+", "MaxOps = 0", src))
     try:
         res = tlc(run, "Pack_mc", tmpcfg, dump=dot, tag="inits", coverage=False)
